@@ -146,3 +146,19 @@ Example C19_recv_budget_refuted_at_96 :
   total_space layout_96 (recv_sizes layout_96 {| r_sock6 := false; r_pkt4 := true; r_gro := true; r_ts := true |}) = 112 /\
   total_space layout_96 (recv_sizes layout_96 {| r_sock6 := true; r_pkt4 := false; r_gro := true; r_ts := true |}) = 120.
 Proof. vm_compute. repeat split; reflexivity. Qed.
+
+(** * Receive buffers sized as documented hold the largest GRO batch
+    [UdpSocketState::gro_segments()] is what callers multiply the datagram size with to size a
+    receive buffer (quinn's [RecvState] does).  The kernel coalesces at most UDP_GRO_CNT_MAX = 64
+    segments (assumption about Linux, listed in the trusted base); the value the compiled crate
+    reports on a fresh loopback socket ([UDP_GRO_SEGMENTS], read on every run) must therefore be
+    64 when GRO is available, or 1 when it is not — and with that value every batch fits. *)
+Example C19_gro_segments_constant :
+  Constants.UDP_GRO_SEGMENTS = 64 \/ Constants.UDP_GRO_SEGMENTS = 1.
+Proof. vm_compute. first [left; reflexivity | right; reflexivity]. Qed.
+
+Theorem C19_gro_buffer_holds_batch : forall mss n last,
+  0 <= mss -> 0 <= last <= mss -> 1 <= n <= 64 -> Constants.UDP_GRO_SEGMENTS = 64 ->
+  (n - 1) * mss + last <= mss * Constants.UDP_GRO_SEGMENTS.
+Proof. intros mss n last Hm Hl Hn ->. nia. Qed.
+Print Assumptions C19_gro_buffer_holds_batch.
